@@ -89,6 +89,7 @@ impl Prop for C06 {
                         astar: false,
                         with_summary: false,
                         iteration_limit: None,
+                        variant: 0,
                     },
                     queries,
                     perm: vec![(n * 31 + p) as u16, 77, 30000],
@@ -104,7 +105,8 @@ impl Prop for C06 {
     }
     fn strategy(&self, _tier: Tier) -> BoxedStrategy<C06Case> {
         (
-            batch_app_strategy(vec![0, 1, 2, 3, 4, 5, 6]),
+            // 8/9: energy model with the shared prediction cache (each weighted like one plain kind)
+            batch_app_strategy(vec![0, 1, 2, 3, 4, 5, 6, 0, 1, 2, 3, 4, 5, 6, 8, 9]),
             proptest::collection::vec(query_strategy(), 1..=24),
             proptest::collection::vec(any::<u16>(), 8),
             1usize..=16,
@@ -175,18 +177,37 @@ impl Prop for C06 {
         app.output_plugins.push(Arc::new(JitterOutputPlugin {
             delays_us: c.delays_us.clone(),
         }));
-        let queries: Vec<Value> = c
-            .queries
+        // energy configurations: "run alone" means alone on a freshly built application (the
+        // prediction cache is state of the application), which is costly: at most 6 queries
+        let energy = c.app.kind >= 8;
+        let cq: &[QuerySpec] = if energy { &c.queries[..c.queries.len().min(6)] } else { &c.queries[..] };
+        // a lossy cache (several speeds per key) is reported under its own signatures
+        let pre = if c.app.kind == 9 { "C06/prediction-cache-shared-key" } else { "C06" };
+        let queries: Vec<Value> = cq
             .iter()
             .enumerate()
             .map(|(i, q)| query_json(&c.app, q, i))
             .collect();
-        let exps: Vec<Expansion> = c.queries.iter().map(|q| expansion(&c.app, q)).collect();
+        let exps: Vec<Expansion> = cq.iter().map(|q| expansion(&c.app, q)).collect();
         // run alone
         let mut alone: Vec<Value> = vec![];
         let mut family_dropped_seen = 0usize;
         for (i, q) in queries.iter().enumerate() {
-            let r = match run_app(&app, vec![q.clone()], Some(1)) {
+            let fresh;
+            let alone_app = if energy {
+                let d2 = CaseDir::new();
+                fresh = match build_app(&c.app.app_spec(), &d2) {
+                    Ok((a, _)) => a,
+                    Err(e) => {
+                        o.fail("C06/app-build-error", json!({"error": e}));
+                        return o;
+                    }
+                };
+                &fresh
+            } else {
+                &app
+            };
+            let r = match run_app(alone_app, vec![q.clone()], Some(1)) {
                 Ok(r) => r,
                 Err(e) => {
                     o.fail("C06/run-returned-error-for-a-single-query", json!({"query": q, "error": e}));
@@ -269,7 +290,16 @@ impl Prop for C06 {
             let mut d = vec![];
             for (k, v) in x {
                 if y.get(k) != Some(v) {
-                    d.push(format!("{}x {}", v, &k[..k.len().min(300)]));
+                    // show the neighbourhood of the first difference from the closest counterpart
+                    let best = y
+                        .keys()
+                        .map(|k2| k.bytes().zip(k2.bytes()).take_while(|(a, b)| a == b).count())
+                        .max()
+                        .unwrap_or(0);
+                    let from = best.saturating_sub(120);
+                    let to = (best + 120).min(k.len());
+                    let (from, to) = ((0..=from).rev().find(|i| k.is_char_boundary(*i)).unwrap_or(0), (to..=k.len()).find(|i| k.is_char_boundary(*i)).unwrap_or(k.len()));
+                    d.push(format!("{}x {} ... [differs at byte {}] ...{}", v, &k[..k.len().min(160)], best, &k[from..to]));
                 }
             }
             d.truncate(3);
@@ -289,14 +319,14 @@ impl Prop for C06 {
         }
         if ma != mb {
             o.fail(
-                "C06/batch-responses-differ-from-run-alone",
+                format!("{}/batch-responses-differ-from-run-alone", pre),
                 json!({"parallelism": c.p1, "config_parallelism": c.app.parallelism, "only_alone": diff(&ma, &mb), "only_batch": diff(&mb, &ma), "counts": [alone.len(), batch.len()]}),
             );
             return o;
         }
         if ma != mc {
             o.fail(
-                "C06/permuted-batch-responses-differ",
+                format!("{}/permuted-batch-responses-differ", pre),
                 json!({"parallelism": c.p2, "only_alone": diff(&ma, &mc), "only_permuted": diff(&mc, &ma), "counts": [alone.len(), permuted.len()]}),
             );
         }
